@@ -1218,8 +1218,9 @@ func init() {
 			return nil
 		})
 		R(p+"vFSList", func(i *interpreter, fr *frame, fn *ssa.Function, a []value) value {
-			// all paths below dir (depth first, sorted by insertion), for frame conditions
-			r := i.resolve(fr, a[0], true)
+			// all paths below dir (depth first, sorted by insertion), for frame conditions;
+			// like filepath.Walk the root is lstat-ed: a symlink there is not followed
+			r := i.resolve(fr, a[0], false)
 			var out []value
 			if r.errno != 0 || r.node == nil {
 				return out
